@@ -137,6 +137,26 @@ def spillStr (counts : List Nat) (rs : Nat) : String :=
   let h := sizes.foldl (fun h v => fnvNat h v 8) fnvOffset
   s!"spill={sizes.length}:{h}"
 
+/-- sizes of all write() calls to the data temps: the spill (one per non-empty block) and, per pass,
+the pass chain's blocks of `buffer_size` bytes plus the last partial one -/
+def dwritesStr (lt : Rec → Rec → Bool) (combf : Rec → Rec → Option Rec) (cfg : Cfg) (lazyMem : Nat)
+    (blocks : List (List Rec)) (counts : List Nat) (rs : Nat) : String :=
+  let stage0 := (counts.filter (· ≠ 0)).map (· * rs)
+  let hist : List (List Nat) :=
+    match afterBlockSorter lt blocks with
+    | none => []
+    | some runs =>
+      if runs.length ≤ 1 then []
+      else match codeMergeLoopT lt combf (fun _ _ _ => 0) cfg lazyMem runs.length runs 0 [] with
+        | .error _ => []
+        | .ok (_, _, h) => h
+  let passWrites := hist.map fun lens =>
+    let t := lens.foldl (· + ·) 0 * rs
+    List.replicate (t / cfg.bufferSize) cfg.bufferSize ++ (if t % cfg.bufferSize = 0 then [] else [t % cfg.bufferSize])
+  let gens := (if stage0.isEmpty then [] else [stage0]) ++ passWrites.filter (fun g => !g.isEmpty)
+  let h := gens.foldl (fun h g => fnvByte (g.foldl (fun h v => fnvNat h v 8) h) 0xAA) fnvOffset
+  s!"dwrites={gens.length}:{h}"
+
 def parseCounts (s : String) : Option (List Nat) :=
   (s.splitOn ",").filter (· ≠ "") |>.mapM (·.toNat?)
 
@@ -194,7 +214,7 @@ def runCase (args : List String) : IO String := do
               let (l1, l2) := match lstr.splitOn " logshow=" with
                 | [a, b] => (a, b)
                 | _ => (lstr, "")
-              return s!"M {ho.str} passes={passes} mret={mretS} lazy={lazyMem} spec={if agree then "same" else "DIFF"} {l1} {spillStr counts rs} oblocks={ob} logshow={l2}"
+              return s!"M {ho.str} passes={passes} mret={mretS} lazy={lazyMem} spec={if agree then "same" else "DIFF"} {l1} {spillStr counts rs} {dwritesStr lt combf cfg lazyMem blocks counts rs} oblocks={ob} logshow={l2}"
           else
             return s!"M {hs.str} passes=- mret=- lazy={lazyMem} spec=same"
     | _, _, _, _, _, _, _, _ => return "M bad-op"
